@@ -76,6 +76,8 @@ def build(rng, tier):
                         c["kcont"] = rng.pick(["np", "series"]) if not kenc.startswith("cat") else "np"
                     if n >= 2 and rng.random() < 0.2 and not kenc.startswith("cat") and c["kcont"] in ("np", "series"):
                         c["T"] = 2
+                    if (c.get("T") or isinstance(c["kcont"], tuple)) and rng.random() < 0.5:
+                        c["pre"] = ["groups"]       # chunked keys re-coded to global codes (still chunked) by an earlier call
                     red.append(c)
                 # -- cumulative
                 for op in (["cumsum", "cummin", "cummax"] if tier == "thorough" else [rng.pick(["cumsum", "cummin", "cummax"])]):
